@@ -133,7 +133,10 @@ def step_pick(a):
             bad = _invariant(st, N, "pre")
             if bad:
                 return ["harness: enumerated state violates I: " + bad[0]], None
-            picked = st.pick()
+            try:
+                picked = st.pick()
+            except Exception as e:
+                return [f"pick raised {e!r} from a state satisfying the invariant (busy/in-flight bookkeeping)"], None
             bad = []
             ens = [k + 1 for k in picked]
             for k, item in picked.items():
@@ -208,7 +211,10 @@ def step_prep(a):
             pin = len(a["jobs"])
             held = {(t, i): v for t, occ in st.engine_occ.items() for i, v in enumerate(occ) if v != -1}
             md = {"pin": pin, "w_folder": os.path.join(tmp, f"worker{pin}"), "mc_moves": ["sh"] * (N + 1), "interfaces": [], "cap": None}
-            out = st.prep_md_items(md)
+            try:
+                out = st.prep_md_items(md)
+            except Exception as e:
+                return [f"prep_md_items raised {e!r} from a state satisfying the invariant (engine / in-flight bookkeeping)"], None
             bad = []
             mine = {}
             for k, item in out["picked"].items():
@@ -301,6 +307,8 @@ def step_treat(a, job, status, combo):
                 st.treat_output(md)
             except _Timeout:
                 return ["re-sorting (sort_trajstate) did not terminate within 20 s"], None, []
+            except Exception as e:  # the real code under test crashed from a state satisfying the invariant
+                return [f"sort_trajstate / treat_output raised {e!r} from a state satisfying the invariant"], None, []
             finally:
                 signal.alarm(0)
             bad, goals = [], []
@@ -556,7 +564,10 @@ def step_delete(a, job, queue_len, delete_all):
                 picked[e - 1] = {"pn_old": old.path_number, "traj": new, "ens": st.ensembles[e]}
             md = {"picked": picked, "status": "ACC", "pnum_old": [st._trajs[e].path_number for e in job], "pin": 0, "md_start": 0.0,
                   "moves": [], "trial_len": [], "trial_op": [], "generated": [], "ens_nums": [e - 1 for e in job]}
-            st.treat_output(md)
+            try:
+                st.treat_output(md)
+            except Exception as e:
+                return [f"treat_output raised {e!r} (delete_old FIFO / live paths)"], None
             bad = []
             removed = [p for op_, p in log if op_ == "remove"]
             live = [t.path_number for t in st._trajs[:-1]]
